@@ -8,6 +8,9 @@ actions without :precondition) are avoided so that both readers get past parsing
 """
 
 
+INIT_VALUES = ["0", "1", "2", "3.5", "0.25"]
+
+
 class PddlText:
     def __init__(self, rng, idx=0):
         self.rng = rng
@@ -48,6 +51,17 @@ class PddlText:
         if self.costs:
             self.reqs.add(":action-costs")
         self.actions = [self.gen_action(i) for i in range(r.randint(1, 3))]
+        # boundary probes: an action whose only precondition compares (fuel) with the value it has initially, in
+        # either operand order (its applicability in the initial state IS the comparison at the boundary)
+        self.fuel_init = r.choice(INIT_VALUES)
+        if self.numeric:
+            for k in range(2):
+                op = r.choice(["<", "<=", ">", ">=", "="])
+                x, y = ("(fuel)", self.fuel_init) if r.random() < 0.5 else (self.fuel_init, "(fuel)")
+                eff = "(done)" if r.random() < 0.5 else "(increase (fuel) %s)" % r.choice(["1", "0.25"])
+                cost = " (increase (total-cost) 1)" if self.costs else ""
+                self.actions.append(" (:action probe%d\n  :parameters ()\n  :precondition (%s %s %s)\n  :effect (and %s%s))" % (
+                    k, op, x, y, eff, cost))
         self.in_domain = False
         self.goal = self.gen_goal()
         self.metric = None
@@ -105,7 +119,7 @@ class PddlText:
             q = r.random()
             if q < 0.6:
                 return self.fexp(scope)
-            return r.choice(["0", "1", "2", "3", "0.5", "2.25", "10"])
+            return r.choice(["0", "1", "2", "3", "0.5", "2.25", "10", "3.5", "0.25"])
         q = r.random()
         a, b = self.gen_num(depth - 1, scope), self.gen_num(depth - 1, scope)
         if a == b:                                     # pddl 0.4 drops a repeated operand (known finding C18/C21)
@@ -127,6 +141,8 @@ class PddlText:
             if self.numeric and q < 0.35:
                 op = r.choice(["<", "<=", ">", ">=", "="])
                 a, b = self.gen_num(1, scope), self.gen_num(1, scope)
+                if r.random() < 0.5:      # boundary cases: a fluent against one of the values it is initialised with
+                    a, b = self.fexp(scope), r.choice(INIT_VALUES)
                 if r.random() < 0.5:
                     a, b = b, a                          # constant on the left as often as on the right
                 return "(%s %s %s)" % (op, a, b)
@@ -176,6 +192,8 @@ class PddlText:
             if self.numeric and q < 0.4:
                 op = r.choice(["<", "<=", ">", ">="])
                 a, b = self.gen_num(1, {}), self.gen_num(1, {})
+                if r.random() < 0.5:
+                    a, b = self.fexp({}), r.choice(INIT_VALUES)
                 if r.random() < 0.5:
                     a, b = b, a
                 parts.append("(%s %s %s)" % (op, a, b))
@@ -287,9 +305,11 @@ class PddlText:
         for name, sig in self.funcs:
             from itertools import product
             for args in product(*[self.all_objects_of(t) for t in sig]):
-                if r.random() < 0.85:                      # some numeric fluents stay undefined
+                if name == "fuel":
+                    init.append("(= (fuel) %s)" % self.fuel_init)
+                elif r.random() < 0.85:                    # some numeric fluents stay undefined
                     init.append("(= (%s) %s)" % (" ".join([self.sp(name)] + [self.sp(a) for a in args]),
-                                                 r.choice(["0", "1", "2", "3.5", "0.25", "7"])))
+                                                 r.choice(INIT_VALUES)))
         if self.costs:
             init.append("(= (total-cost) 0)")
         r.shuffle(init)
